@@ -240,3 +240,79 @@ func c12Head(msg string) string {
 	}
 	return "<no position>"
 }
+
+// H_C12_multiline: failing actions that open a construct spanning several lines - range
+// over a value that cannot be ranged / is nil / two variables over a channel, if / else-if
+// with a failing condition, try whose catch fails, yield of an unknown block with content -
+// preceded by a symbolic number of newlines and with a symbolic number of body lines: the
+// message names the line of the failing action itself (the construct's opening line), not
+// the line where the construct ends.
+//
+//gosym:reach failed
+func H_C12_multiline() {
+	heads := []string{
+		`{{ range seven }}`, `{{ range k, v := ch }}`, `{{ range nilv }}`, `{{ range i, v := seven }}`,
+		`{{ if nope.x }}`, `{{ if false }}a{{ else if nope.y }}`, `{{ yield nosuch() content }}`, `{{ range v := nope }}`,
+	}
+	c := ndChoice("head", len(heads))
+	before := ndChoice("before", 3)
+	bodyLines := ndChoice("body", 3)
+	inc := ndBool("included")
+	src := ""
+	for i := 0; i < before; i++ {
+		src += "t\n"
+	}
+	src += "x" + heads[c]
+	for i := 0; i < bodyLines; i++ {
+		src += "\nbody{{ 1 }}"
+	}
+	src += "\n{{ end }}\nREST"
+	files := []string{"/m.jet", src}
+	file := "/m.jet"
+	if inc {
+		files = []string{"/m.jet", `{{ include "/i.jet" }}`, "/i.jet", src}
+		file = "/i.jet"
+	}
+	set := hxSet(nil, files...)
+	vars := c12Vars(7)
+	vars.Set("seven", 7)
+	ch := make(chan int, 1)
+	ch <- 1
+	close(ch)
+	vars.Set("ch", ch)
+	_, err := hxExec(set, "/m.jet", vars, hxData{})
+	vfReach("failed")
+	vfAssert(err != nil, "the failure is returned as an error")
+	if err == nil {
+		return
+	}
+	vfNote(c12Head(err.Error()))
+	vfAssert(hxContains(err.Error(), c12Needle(file, before+1)), "the message names the file and the line of the failing action")
+}
+
+// H_C12_afterSuccess: the failing execution comes after a successful one on the same
+// (pooled) runtime that was given data: evaluating a field of '.' with nil data, or an
+// undeclared variable the earlier template declared, still fails, names its file and line,
+// and nothing after the failing action is written.
+//
+//gosym:reach failed
+func H_C12_afterSuccess() {
+	c := ndChoice("case", 3)
+	fails := []string{`A{{ .Name }}B`, `A{{ earlier }}B`, `A{{ yield content }}{{ .Name }}B`}
+	set := hxSet(nil,
+		"/first.jet", `{{ import "/lib.jet" }}{{ earlier := "e" }}{{ yield wrap() content }}{{ .Name }}{{ earlier }}{{ end }}`,
+		"/lib.jet", `{{ block wrap() }}<{{ yield content }}>{{ end }}`,
+		"/second.jet", "\n"+fails[c],
+	)
+	type named struct{ Name string }
+	o1, e1 := hxExec(set, "/first.jet", nil, named{"alice"})
+	vfAssert(e1 == nil && o1 == "<alicee>", "first execution succeeds")
+	out, err := hxExec(set, "/second.jet", nil, nil)
+	vfReach("failed")
+	vfAssert(err != nil, "the failure is returned as an error, whatever ran before")
+	if err == nil {
+		return
+	}
+	vfAssert(hxContains(err.Error(), c12Needle("/second.jet", 2)), "the message names the file and the action's line")
+	vfAssert(out == "\nA", "everything before the failing action has been written, nothing after it")
+}
